@@ -3,7 +3,7 @@
    the model's [valid_data], on which C01_signed_is_valid and C01_invalid_refused rest, decides
    exactly what the transcription decides (true = the Go function returns nil). *)
 From Coq Require Import ZArith NArith.
-From Verif Require Import Lib.Base Lib.GoInt Gen.Pure_Extracted Model.C01_Attester Proofs.GenTie2.
+From Verif Require Import Lib.Base Lib.GoInt Gen.Pure_C01 Model.C01_Attester Proofs.TieLib Proofs.Tie_C01.
 
 Theorem C01_tie_valid_data : forall (spe : N) (d : duty) (a : adata),
   valid_data spe d a =
